@@ -454,6 +454,10 @@ class Encoder:
                 for p in table[L]:
                     if p.next not in table:
                         todo.append(p.next)
+                if self.opts.interrupt and pname == "main" and L in self.main_concurrent and prog.instrs[L].exc is not None:
+                    # an asynchronous exception delivered at L continues at L's handler: that label must be a step start
+                    if prog.instrs[L].exc not in table:
+                        todo.append(prog.instrs[L].exc)
             self.paths[pname] = table
         # program counters range over step-start labels only
         self.labels = {}
@@ -540,6 +544,7 @@ class Encoder:
         sc["g_anyfail"] = z3.BoolVal(False)
         sc["g_maxinflight"] = bv(0)
         sc["interrupted"] = z3.BoolVal(False)
+        sc["g_shutdown"] = z3.BoolVal(False)
         sc["g_start_after_int"] = z3.BoolVal(False)
         del sc["lock"]
         self.lock_names = sorted({i.a[1][1] for p in self.progs.values() if p for i in p.instrs.values() if i.op == "env" and i.a[0] in ("acquire", "release")})
@@ -1026,6 +1031,9 @@ class Encoder:
                 isdone = it.v == self.DONE
                 sc["q"] = [ite(AND(NOT(isdone), it.v == i), sc["q"][i] + 1, sc["q"][i]) for i in range(N)]
                 sc["qdone"] = ite(isdone, sc["qdone"] + 1, sc["qdone"])
+                if tid == "main":
+                    # ghost: the coordinator has started to release the workers (first DONE sentinel) after an interrupt
+                    sc["g_shutdown"] = OR(sc["g_shutdown"], AND(isdone, sc["interrupted"]))
                 sc["unf"] = sc["unf"] + 1
                 s.bad["overflow"] = OR(s.bad["overflow"], sc["unf"] == 0)
                 return VNone()
@@ -1121,7 +1129,10 @@ class Encoder:
             # C10: no lock held while the user function runs
             held = OR(*[sc["lock:" + ln] == self._tidnum(tid) for ln in self.lock_names])
             B["c10_fn_under_lock"] = OR(B["c10_fn_under_lock"], held)
-        B["c17_start_after_interrupt"] = OR(B["c17_start_after_interrupt"], sc["interrupted"])
+        # C17: "no further call is started" cannot be instantaneous -- the coordinator needs a few instructions to react.  The
+        # decision point that counts is the worker's `stop` test (fused with this start event): no worker may pass it once the
+        # coordinator has begun to release the workers (put its first DONE sentinel) after the interrupt.
+        B["c17_start_after_interrupt"] = OR(B["c17_start_after_interrupt"], sc["g_shutdown"])
         B["c07_start_after_return"] = OR(B["c07_start_after_return"], self.main_ended(s))
 
     def fn_end(self, s, tid, ins, rd, g, d, loc):
